@@ -356,6 +356,7 @@ func (x *Exec) lazyFor(st *State, et types.Type) *Lazy {
 		return l
 	}
 	cs := comps(et)
+	x.declZero(et)
 	l := &Lazy{key: key, et: et, base: make([]string, len(cs))}
 	for i, c := range cs {
 		b := fmt.Sprintf("%s@%d", sanitize(key+c.Suffix), st.epoch)
